@@ -35,6 +35,26 @@ EXTRA = {
  "C05f-unwind-depth-read-at-exit": ["C07", "C06"], "C13f-size-checked-on-node-entry": ["C18"], "C20f-fold-accepts-65536": ["C03"], "C20f-arity-error-leaves-callee-code": ["C07", "C06"],
  "C12f-fold-keeps-stale-constants-out-of-range": ["C03"], "C12f-divzero-fold-keeps-stale-constants": ["C03"], "C12f-slash-after-lsquare-table": ["C14"],
  "C03f-function-optimizer-error-replaces-main": ["C19"], "C03f-float-literal-string-by-value": ["C19"], "C18f-function-size-check-uses-main": ["C02"], "C18f-sqrt-fold-abandoned-keeps-constants": ["C03"],
+ # round 10 (suffix j)
+ "C01j-constant-index-survives-second-prepare": ["C19"], "C01j-createhash-bookkeeping-without-defer": ["C07", "C04"], "C01j-in-compares-floats-by-value": ["C16"],
+ "C02j-host-function-resolved-once": ["C20", "C07"], "C02j-object-equal-floats-by-value": ["C01"], "C02j-unwind-only-in-outermost-run": ["C06", "C07"],
+ "C03j-code-make-shared-scratch": ["C11"], "C03j-constants-regrouped-across-operand": ["C12"], "C03j-times-one-dropped": ["C01"],
+ "C04j-field-maps-pooled-callee-map-kept": ["C07", "C11"], "C04j-non-ascii-digits-end-identifier": ["C14"], "C04j-unwind-only-in-outermost-run": ["C06"],
+ "C05j-float-true-excludes-smallest-positive": ["C01"], "C05j-reflection-panic-recovered-fields-truncated": ["C04"], "C05j-struct-layouts-cached-by-type-string": ["C04", "C07"],
+ "C06j-empty-container-loop-opens-no-scope": ["C02"], "C06j-foreach-in-place-at-last-round": ["C16"], "C06j-no-unwind-after-panic": ["C07"],
+ "C07j-float-hashkey-memo-copied-by-step": ["C16", "C15"], "C07j-no-unwind-after-panic": ["C06"], "C07j-range-cache-packed-key": ["C16"],
+ "C08j-cyclic-map-memoised-self-containing-hash": ["C04"], "C08j-function-error-in-switch-value-keeps-scratch": ["C13"], "C08j-zero-time-typed-nil-integer": ["C04"],
+ "C09j-errors-rewrapped-at-every-call-level": ["C08"], "C09j-hash-next-sticks-on-missing-key": [], "C09j-split-empty-separator-spins": ["C17"],
+ "C10j-getenv-default-syntax-exports": [], "C10j-scopes-open-diagnostic-on-stderr": [], "C10j-zoneinfo-remembered-relative-path": [],
+ "C11j-field-cache-kept-for-same-address": ["C04", "C19"], "C11j-float-stepped-in-place": ["C15"], "C11j-scope-maps-reused-unwind-leaves-them": ["C07"],
+ "C12j-bracketed-sum-emitted-operand-by-operand": ["C01"], "C12j-prepare-remembers-request-before-success": ["C13"], "C12j-sign-peephole-skips-negation": ["C03"],
+ "C13j-byte-order-marks-trimmed-both-ends": ["C14"], "C13j-compile-stops-quietly-when-context-done": ["C19", "C09"], "C13j-ternary-flag-reset-by-statement": [],
+ "C14j-division-by-zero-fold-leaves-stale-operand": ["C03", "C01"], "C14j-dollar-stripped-in-shared-constant": ["C04", "C07"], "C14j-leading-group-characters-sorted": [],
+ "C16j-in-same-value-floats": ["C01"], "C16j-scope-maps-reused-unwind-leaves-them": ["C06", "C07"], "C16j-string-chars-cached-in-object": [],
+ "C17j-builtin-inline-cache-keyed-by-size-and-ip": ["C06"], "C17j-match-scanner-long-lines-trailing-newline": ["C01"], "C17j-scope-maps-recycled-unwind-leaves-them": ["C07", "C06"],
+ "C18j-hash-literal-skips-pair-keeps-count": ["C16"], "C18j-prepare-recycles-slices-keeps-old-machine": ["C19", "C08"], "C18j-spare-call-stack-handed-out-twice": ["C06"],
+ "C19j-host-functions-remembered-by-name": ["C20", "C07"], "C19j-inspect-object-recovers-reflection-panic": ["C04", "C08"], "C19j-string-hashkey-walks-runes": ["C16"],
+ "C20j-dollar-prefix-stripped-twice": ["C04"], "C20j-hash-entries-cached-by-length": ["C16"], "C20j-unwind-only-in-outermost-run": ["C06"],
  # round 9 (suffix i)
  "C01i-arithmetic-identity-dropped": ["C03"], "C01i-call-arguments-buffer-reused": ["C20", "C15"], "C01i-hash-entries-sorted-by-text-only": ["C16", "C19"],
  "C02i-call-arguments-buffer-kept": [], "C02i-empty-if-emits-no-code": ["C05"], "C02i-string-next-ascii-fast-path-by-rune-index": ["C16"],
